@@ -107,8 +107,40 @@ def gen_plan(ch: Chooser, tier: str) -> dict[str, Any]:
                                   'lifecycle': None})
         plan['actions'].append({'t': 0.0, 'do': 'start', 'op': 'op2'})
         plan['actions'].sort(key=lambda a: a['t'])
+    if ch.bool(0.3):
+        _add_drs_profile(ch, plan)
     plan['until'] = plan['faults_stop'] + 100.0
     return plan
+
+
+def _add_drs_profile(ch: Chooser, plan: dict[str, Any]) -> None:
+    """A Deployment and a ReplicaSet it owns, served by the same operator (the '-ofDRS' convention)."""
+    plan['kinds'] += [{'plural': 'deployments', 'group': 'apps', 'version': 'v1', 'kind': 'Deployment'},
+                      {'plural': 'replicasets', 'group': 'apps', 'version': 'v1', 'kind': 'ReplicaSet'}]
+    op1 = plan['operators'][0]
+    for kind in ('deployments', 'replicasets'):
+        op1['handlers'].append({'id': f'mk-{kind[:3]}', 'kind': 'create', 'resource': kind, 'opts': {},
+                                'script': [{'do': 'temp', 'dur': 0.0, 'delay': 0.5}, {'do': 'ok', 'dur': 0.0}]})
+        op1['handlers'].append({'id': f'up-{kind[:3]}', 'kind': 'update', 'resource': kind, 'opts': {},
+                                'script': [{'do': 'ok', 'dur': 0.0}]})
+    dep = {'kind': 'deployments', 'body': {'metadata': {'name': 'dep', 'annotations': {'user.example.com/keep': 'me'}},
+                                           'spec': {'replicas': 1, 'strategy': {'type': 'RollingUpdate'}}}}
+    rs = {'kind': 'replicasets', 'body': {'metadata': {'name': 'dep-5d4f', 'ownerReferences': [
+        {'apiVersion': 'apps/v1', 'kind': 'Deployment', 'name': 'dep', 'uid': 'x', 'controller': True}]},
+        'spec': {'replicas': 1}}}
+    first, second = (dep, rs) if ch.bool() else (rs, dep)
+    plan['objects'].append(first)
+    plan['actions'].append({'t': round(ch.float(0.5, 3.0), 6), 'do': 'create', 'kind': second['kind'], 'body': second['body']})
+    t = round(ch.float(5.0, 9.0), 6)
+    plan['actions'].append({'t': t, 'do': 'copy-annotations', 'from_kind': 'deployments', 'from_name': 'dep',
+                            'kind': 'replicasets', 'name': 'dep-5d4f'})
+    plan['actions'].append({'t': round(t + ch.float(0.5, 3.0), 6), 'do': 'patch', 'kind': 'deployments', 'name': 'dep',
+                            'patch': {'spec': {'replicas': 2}}})
+    plan['actions'].append({'t': round(t + ch.float(3.5, 5.0), 6), 'do': 'copy-annotations', 'from_kind': 'deployments',
+                            'from_name': 'dep', 'kind': 'replicasets', 'name': 'dep-5d4f'})
+    plan['actions'].sort(key=lambda a: a['t'])
+    plan['drs'] = True
+    plan['faults_stop'] = max(plan['faults_stop'], t + 6.0)
 
 
 def _own_annotation(st: common.StorageRef, key: str) -> bool:
@@ -243,6 +275,42 @@ def oracle(run: runner.Run, oc: Outcome) -> None:
                     oc.add('C16/purge', 'records-left',
                            f"{opid}: at quiescence {obj['metadata']['name']} still carries {left[:4]} "
                            f"{'and status.' + st.name + '.progress=' + str(list(prog)[:3]) if prog else ''}", uid=obj['metadata']['uid'])
+    # 5. the records of a ReplicaSet owned by a Deployment live under their own (marked) names, so that the
+    #    annotations copied down from the Deployment are never taken for the ReplicaSet's own
+    if plan.get('drs'):
+        st1 = refs['op1']
+        snaps = common.snapshots(run)
+        for kind, marked in (('replicasets', True), ('deployments', False)):
+            rdk = run.rdef(kind)
+            for t in run.transitions:
+                if t.rkey != rdk.key or common.op_of(t.actor) != 'op1' or t.after is None:
+                    continue
+                ab = ((t.before or {}).get('metadata') or {}).get('annotations') or {}
+                aa = (t.after.get('metadata') or {}).get('annotations') or {}
+                for key in aa:
+                    if not _own_annotation(st1, key) or ab.get(key) == aa.get(key) or key.endswith('/kopf-managed'):
+                        continue
+                    if key.endswith('-ofDRS') != marked:
+                        oc.add('C16/isolation', 'owned-replicaset-key-' + ('not-marked' if marked else 'marked-on-a-deployment'),
+                               f"op1 wrote {key!r} on the {kind[:-1]} {t.name}: records of a ReplicaSet owned by a Deployment "
+                               f"must carry the -ofDRS mark, and only they", uid=t.uid)
+                        break
+        oc.probes['probe.drs-profile'] = 1
+        # ... and the copy is not an update of the ReplicaSet
+        for (o, uid), lst in changes.extract_steps(run, 'replicasets').items():
+            closing = None
+            for s in lst:
+                view = snaps.get((uid, s.rv))
+                if view is None:
+                    continue
+                if s.reason == 'update' and closing is not None and \
+                        common.essence_eq(common.ref_essence(closing), common.ref_essence(view)):
+                    oc.add('C16/isolation', 'replicaset-handled-for-the-deployments-records',
+                           f"the ReplicaSet {uid}@{s.rv} was classified as an update although nothing essential differs from "
+                           f"the state handled last (@{closing['metadata']['resourceVersion']})", uid=uid)
+                if any(w.after is not None and w.actor.startswith('op1') for w in s.writes) and s.reason in ('create', 'update') \
+                        and not any(c.outcome not in ('ok',) for c in s.calls):
+                    closing = view
     oc.probes['probe.long-or-family-id-in-multi-step-cycle'] = exercised
     if exercised:
         oc.nontrivial = True
